@@ -12,7 +12,9 @@ EXPLANATION = ("Decides the structural reasons the front ends cannot diverge fro
                "serialiser / response wrapper / the caller); (b) index options are not persisted, so every front end must open the "
                "index with the same ones: the constant operands of every IndexOptions construction agree on bm25_k1, bm25_b, "
                "enable_positions and storage; the CLI's string tables for execution strategy and sort order map onto the serde names "
-               "of the core enums. Equality of results is not decided; the wasm front end is not analysable here.")
+               "of the core enums; (c) request parts the front ends build per element of a list (sort clauses, documents) use only "
+               "values set for that element: no operand of the struct literal can carry a value assigned in an earlier iteration. "
+               "Equality of results is not decided; the wasm front end is not analysable here.")
 
 FRONT = ("searchlite_cli", "searchlite_http", "searchlite_ffi")
 ALLOWED_CORE = (
